@@ -191,7 +191,9 @@ def b_list(ex, st, args, kwargs, cx, node):
         r = st.new_ref("list")
         st.wr("$items", r, st.rd("$items", src))
         st.wr("$len", r, st.rd("$len", src))
-        yield st, o.ref(r, "list")
+        res = o.ref(r, "list")
+        res.aux = getattr(args[0], "aux", None)
+        yield st, res
         return
     raise Unsupported("list(...) form")
 
@@ -409,6 +411,72 @@ def d_get(ex, st, recv, args, kwargs, cx):
     st = st.clone()
     st.assume(z3.Implies(ex.w.V.is_ref(v), z3.And(ex.w.V.r(v) > 0, ex.w.V.r(v) <= st.alloc)))
     yield st, SV(v)
+
+
+def d_items(ex, st, recv, args, kwargs, cx):
+    """dict.items() used as a value (`list(d.items())`): a snapshot list of n new 2-tuples (key_j, value_j) in the
+    dict's order.  The tuples are the block of n references after the allocation counter (kept as a schema over j)."""
+    from .eval_call import Schema
+    o, w, V = ex.o, ex.w, ex.w.V
+    st = st.clone()
+    r = o.r(recv)
+    keys, mp, n = st.rd("$keys", r), st.rd("$map", r), o.seq_len(st, r)
+    lst = st.new_ref("list")
+    base = st.alloc
+    st.alloc = st.alloc + n
+    items_l = w.fresh("pairs", w.SORTS["items"])
+    st.wr("$items", lst, items_l)
+    st.wr("$len", lst, n)
+    t_items, t_len = st.arr("$items"), st.arr("$len")      # read through the current arrays: the tuples are above every old ref
+
+    def inst(j, base=base, keys=keys, mp=mp, n=n, items_l=items_l, t_items=t_items, t_len=t_len):
+        t = base + 1 + j
+        k = z3.Select(keys, j)
+        return z3.Implies(z3.And(j >= 0, j < n),
+                          z3.And(z3.Select(items_l, j) == V.ref(t), w.cls_of(t) == w.CLS["tuple"], z3.Select(t_len, t) == 2,
+                                 z3.Select(z3.Select(t_items, t), 0) == k, z3.Select(z3.Select(t_items, t), 1) == z3.Select(mp, k)))
+    st.schemas = st.schemas + [Schema("int", inst, "dict.items")]
+    res = o.ref(lst, "list")
+    res.aux = {"v": "ref:tuple"}
+    yield st, res
+
+
+def d_from_pairs(ex, st, r, pairs, clear):
+    """dict.__init__(pairs) / dict.update(pairs) for a list of 2-tuples: afterwards every key present is either an old key
+    with its old value (not for __init__) or the first component of some pair whose second component is its value; every
+    pair's key is present; later pairs win (not modelled beyond `some pair`)"""
+    from .eval_call import Schema
+    o, w, V = ex.o, ex.w, ex.w.V
+    pr = o.r(pairs)
+    p_items, n = st.rd("$items", pr), o.seq_len(st, pr)
+    t_items = st.arr("$items")
+    od, om = st.rd("$dom", r), st.rd("$map", r)
+    nd, nm = w.fresh("upd_dom", w.SORTS["dom"]), w.fresh("upd_map", w.SORTS["map"])
+    src = w.fun("pair_index_%d" % w._ctr, "V", "int")       # Skolem function: which pair put the key there
+
+    def first(j):
+        return z3.Select(z3.Select(t_items, V.r(z3.Select(p_items, j))), 0)
+
+    def second(j):
+        return z3.Select(z3.Select(t_items, V.r(z3.Select(p_items, j))), 1)
+
+    def by_key(k):
+        j = src(k)
+        from_pair = z3.And(j >= 0, j < n, first(j) == k, second(j) == z3.Select(nm, k))
+        kept = z3.And(z3.Select(od, k), z3.Select(nm, k) == z3.Select(om, k)) if not clear else z3.BoolVal(False)
+        return z3.And(z3.Implies(z3.Select(nd, k), z3.Or(kept, from_pair)),
+                      z3.Implies(z3.Select(od, k) if not clear else z3.BoolVal(False), z3.Select(nd, k)))
+
+    def by_index(j):
+        return z3.Implies(z3.And(j >= 0, j < n), z3.Select(nd, first(j)))
+    st.schemas = st.schemas + [Schema("key", by_key, "dict-from-pairs", derive=lambda k: [("int", src(k))]), Schema("int", by_index, "dict-from-pairs")]
+    st.wr("$dom", r, nd)
+    st.wr("$map", r, nm)
+    for arr in ("$keys", "$pos", "$len"):
+        st.wr(arr, r, w.fresh(arr.strip("$"), w.SORTS[w.SPECIAL[arr]]))
+    ln = st.rd("$len", r)
+    st.assume(z3.And(ln >= 0, z3.Implies(n > 0, ln > 0)))
+    return src
 
 
 def set_add(ex, st, recv, args, kwargs, cx):
@@ -1015,6 +1083,11 @@ def d_update(ex, st, recv, args, kwargs, cx):
     """dict.update(other_dict): pointwise merge (kept as a schema over keys); order of the merged dict is abstract"""
     from .eval_call import Schema
     o, w = ex.o, ex.w
+    if not kwargs and len(args) == 1 and o.refcls(st, args[0], ("list",)) == "list":
+        st = st.clone()
+        d_from_pairs(ex, st, o.r(recv), args[0], clear=False)
+        yield st, o.none()
+        return
     if kwargs or len(args) != 1 or not o.refcls(st, args[0], ("dict",)):
         raise Unsupported("dict.update form")
     st = st.clone()
@@ -1034,6 +1107,32 @@ def d_update(ex, st, recv, args, kwargs, cx):
     yield st, o.none()
 
 
+def d_init(ex, st, recv, args, kwargs, cx):
+    """dict.__init__(self[, dict | list of pairs])"""
+    o = ex.o
+    if kwargs or len(args) > 1:
+        raise Unsupported("dict.__init__ form")
+    st = st.clone()
+    r = o.r(recv)
+    o.dict_clear(st, r)
+    if not args:
+        yield st, o.none()
+        return
+    a = args[0]
+    if o.refcls(st, a, ("dict",)) == "dict":
+        src = o.r(a)
+        for arr in ("$map", "$dom", "$len", "$keys", "$pos"):
+            st.wr(arr, r, st.rd(arr, src))
+        yield st, o.none()
+    elif o.refcls(st, a, ("list",)) == "list":
+        d_from_pairs(ex, st, r, a, clear=True)
+        yield st, o.none()
+    else:
+        raise Unsupported("dict.__init__ with %s" % a.ty)
+
+
+CONTAINER_METHODS[("dict", "__init__")] = d_init
+CONTAINER_METHODS[("dict", "items")] = d_items
 CONTAINER_METHODS[("dict", "update")] = d_update
 
 
